@@ -149,7 +149,8 @@ Plan cppwrap_generate(uint64_t base, const std::string &prop, uint64_t index, in
     unsigned cls = (unsigned)rd.below(100);
     k.max_nodes = cls < 40 ? 1 + (int)rd.below(6) : cls < 90 ? 4 + (int)rd.below(20) : 20 + (int)rd.below(tier ? 120 : 40);
     k.alphabet = (int)rd.below(3);
-    k.long_strings = rd.chance(1, 6) ? 1 + (int)rd.below(2) : 0;       // documents above the 1000-byte first-try buffer
+    k.long_strings = rd.chance(1, 4) ? 1 + (int)rd.below(2) : 0;       // documents above the 1000-byte first-try buffer
+    if (rd.chance(1, 8)) { k.max_kids = 12; k.alphabet = 1; }          // wide objects: many keys, also well above 1000 bytes
     k.max_obj_depth = 1 + (int)rd.below(10);                            // wrapper depth limit is 10
     k.max_arr_depth = 1 + (int)rd.below(6);
     k.p_container = 20 + (int)rd.below(40);
